@@ -404,6 +404,7 @@ func runC15(c *Ctx) {
 
 	// C15.6 a re-run completes an interrupted installation: Install has no success path around the walk
 	ruleInstallWalksBeforeSuccess(c, "C15.6", L.fn(llmPkg, "Install"))
+	ruleDestinationNotInspected(c, "C15.7")
 
 	// C15.5 propagation up to the command: callers of publishing functions, of Install, and the Run methods
 	c15Propagation(c, fns, pubs0(pubs))
